@@ -40,8 +40,11 @@ def run(tier, only=None):
 
     def ujob(u):
         mode = {"c16.case": "case", "c16.blank": "blank", "c16.comment_crlf": "comment"}.get(u[0])
-        return te.unit(u[0], "tok_filter.c", defs=u[1], replace=LTI, unwind=110, checks="default", timeout=700 if quick else 3000,
-                       unwindset={"strstr.0": 110, "strstr.1": 110, "strlen.0": 110, "strchr.0": 110},
+        # string-loop bounds follow the line length of the unit (the unwinding assertions check that they suffice)
+        nmax = int([d for d in u[1] if d.startswith("-DNMAX=")][0][7:])
+        sb = nmax + 12
+        return te.unit(u[0], "tok_filter.c", defs=u[1], replace=LTI, unwind=sb, checks="default", timeout=700 if quick else 3000,
+                       unwindset={"strstr.0": sb, "strstr.1": sb, "strlen.0": sb, "strchr.0": sb},
                        replay_fn=confirm(mode) if mode else None)
     # one pool: the filter-level units (long) first, then the number-base pairs
     rep.add(core.pmap_mixed([(ujob, u) for u in units] + [(lambda sk: eng.run_family([sk])[0], sk) for sk in sks]))
